@@ -390,10 +390,13 @@ def _scenarios(st):
     """(name, previous complete saves [(ops, payload, it, sid)], crashing save (ops, payload, it, sid))"""
     s, p = st["saves"], st["payloads"]
     a, b, c = (s[0], p[0], 5, 1), (s[1], p[1], 12, 2), (s[2], p[2], 12, 3)
-    return [("no-prev", [], a), ("prev-other-label", [a], b), ("prev-same-label", [a, b], c)]
+    return [("no-prev", [], a, None), ("prev-other-label", [a], b, None), ("prev-same-label", [a, b], c, None),
+            # an earlier save(12) died half way through its payload / right after opening the pointer's temporary:
+            # stale model_12.pt.tmp / last_model.txt.tmp are lying around when save(12) runs again
+            ("stale-model-tmp", [a], c, (b, 2, 1000)), ("stale-last-tmp", [a], c, (b, 6, None))]
 
 
-def _crash_case(ctx, st, name, prev, new, pinned, n, m):
+def _crash_case(ctx, st, name, prev, new, pinned, n, m, stale=None):
     ops, payload, it, sid = new
     sizes = payload_sizes(ops)
     use = pinned_ops(it, sizes) if pinned else ops
@@ -402,17 +405,24 @@ def _crash_case(ctx, st, name, prev, new, pinned, n, m):
         with toy.scratch_dir() as d:
             for pops, ppay, pit, _ in prev:
                 apply_ops(d, pinned_ops(pit, payload_sizes(pops)) if pinned else pops, ppay, 10 ** 6, None)
+            if stale is not None:
+                (sops, spay, sit, _), sn, sm = stale
+                apply_ops(d, pinned_ops(sit, payload_sizes(sops)) if pinned else sops, spay, sn, sm)
+            before = real_load_verdict(d)
             apply_ops(d, use, payload, n, m)
             v = real_load_verdict(d)
-        st["verdicts"].append({"scenario": name, "pinned": pinned, "n": n, "m": m, "verdict": v,
+        st["verdicts"].append({"scenario": name, "pinned": pinned, "n": n, "m": m, "verdict": v, "before": before,
                                "new": [it, sid], "nops": len(use),
                                "prev_of": [x for x in (prev[-1][2:4] if prev else [])]})
         return v
 
     prev_g = [v for (pops, ppay, pit, psid) in prev for v in (pit, psid, len(ppay))]
     inside = 0 < n < len(use) or (n == 0 and m is not None)
-    return {"line": "crash " + " | ".join(ints(g) for g in ([int(pinned)], prev_g, [it, sid, len(payload)], sizes,
-                                                            [n, -1 if m is None else m], [] if pinned else st["table"])),
+    groups = [[int(pinned)], prev_g, [it, sid, len(payload)], sizes, [n, -1 if m is None else m], [] if pinned else st["table"]]
+    if stale is not None:
+        (sops, spay, sit, ssid), sn, sm = stale
+        groups.append([sit, ssid, len(spay), sn, -1 if sm is None else sm])
+    return {"line": "crash " + " | ".join(ints(g) for g in groups),
             "impl": impl, "nontrivial": inside,
             "bucket": f"crash/{'pinned' if pinned else 'current'}/{name}/" + ("cut" if m is not None else "boundary")}
 
@@ -429,11 +439,13 @@ def correspondence(ctx: Ctx):
         yield {"line": "saveops " + ints([it, 0]) + " | " + ints(payload_sizes(ops)) + " | " + ints(st["table"]),
                "impl": (lambda ops=ops: canon_ops(ops)), "nontrivial": True, "bucket": f"saveops/{st['how']}"}
     # (ii) every crash state, current order (traced) and pinned order (regression stream)
-    for name, prev, new in _scenarios(st):
+    for name, prev, new, stale in _scenarios(st):
         for pinned in (False, True):
+            if pinned and stale is not None:
+                continue
             ops = pinned_ops(new[2], payload_sizes(new[0])) if pinned else new[0]
             for n, m in crash_points(ops, ctx.thorough):
-                yield _crash_case(ctx, st, name, prev, new, pinned, n, m)
+                yield _crash_case(ctx, st, name, prev, new, pinned, n, m, stale)
     # malformed directories: what load('latest') must reject
     pay = st["payloads"][0]
     for txt in MALFORMED_LAST:
@@ -464,8 +476,25 @@ def correspondence(ctx: Ctx):
         yield {"line": "lr " + ints(sg[:2] + [lo, hi]) + " | " + ints(sg[2:]) + " | " + ints(ms),
                "impl": (lambda sc=sc, hi=hi: _real_lr_sequence(sc, hi)), "nontrivial": hi >= 2,
                "bucket": "lr/" + sc["method"] + ("/unsorted" if sc["milestones"] != sorted(sc["milestones"]) else "")}
+    # a real scheduler checkpointed at last_epoch e (real Checkpointer), restored and continued = the closed form
+    for sc, total, e in resume_points(ctx):
+        if sc["kind"] != "multistep":
+            continue
+        sg, ms = toy.sched_groups(sc)
+        special = e in sc["milestones"] or e == sc["warmup_iters"]
+        yield {"line": "lr " + ints(sg[:2] + [0, total]) + " | " + ints(sg[2:]) + " | " + ints(ms),
+               "key": ("lr-resume", total, e, tuple(ms), sc["warmup_iters"], str(sc["wf"]), sc["method"], str(sc["base"])),
+               "impl": (lambda sc=sc, total=total, e=e: "ok " + ints(toy.fr_pairs(_real_resumed_lrs(sc, total, e)))),
+               "nontrivial": 0 < e < total, "bucket": "lr-resume/" + ("milestone-or-warmup-boundary" if special else "other")}
+    # what load restores: saver / loader bundles, full / only_models / checkpointable_objects
+    for _ in range(ctx.budget(40, 500)):
+        saver, loader, mode, keys = gen_bundle(rng)
+        yield {"line": "bundle " + " | ".join(ints(g) for g in ([v for kv in saver for v in kv], [v for kv in loader for v in kv],
+                                                               [mode], keys)),
+               "impl": (lambda a=saver, b=loader, m=mode, k=keys: real_bundle(a, b, m, k)),
+               "nontrivial": len(saver) > 1 and len(loader) > 1, "bucket": "bundle/" + ["full", "only_models", "select"][mode]}
     # (iii) histories of real training processes
-    for i in range(ctx.budget(36, 400)):
+    for i in range(ctx.budget(30, 400)):
         c, stops = gen_history(rng, k=1 if i % 3 else rng.choice([2, 3]))
         yield {"line": toy.proto("train", toy.toy_groups(c, [c["ck"], 0]) + [[v for s in stops for v in s], st["table"]]),
                "impl": (lambda c=c, stops=stops: fmt_history(run_history(c, stops), st, c, stops)),
@@ -477,6 +506,96 @@ def _with_dir(fill) -> str:
     with toy.scratch_dir() as d:
         fill(d)
         return real_load_verdict(d)
+
+
+def _real_resumed_lrs(sc, total, e):
+    """lr at last_epoch 0 … total-1 of a REAL scheduler that is checkpointed (real Checkpointer.save) when its
+    last_epoch is `e`, restored into fresh objects (real load('latest')) and stepped on"""
+    from direct.checkpointer import Checkpointer
+
+    def fresh():
+        o = torch.optim.SGD([torch.nn.Parameter(torch.zeros(1))], lr=float(sc["base"]))
+        return o, toy.make_scheduler(o, sc)
+
+    o, s = fresh()
+    out = []
+    for _ in range(e):
+        out.append(o.param_groups[0]["lr"])
+        o.step()
+        s.step()
+    with toy.scratch_dir() as d:
+        Checkpointer(pathlib.Path(d), model=torch.nn.Linear(1, 1), optimizer=o, lr_scheduler=s).save(max(e - 1, 0))
+        o, s = fresh()
+        Checkpointer(pathlib.Path(d), model=torch.nn.Linear(1, 1), optimizer=o, lr_scheduler=s).load("latest")
+    assert s.last_epoch == e
+    for _ in range(e, total):
+        out.append(o.param_groups[0]["lr"])
+        o.step()
+        s.step()
+    return out
+
+
+def gen_sched(rng, total, dyadic=True):
+    sc = toy.gen_cfg(rng)["sched"]
+    sc["milestones"] = sorted(rng.sample(range(1, max(total, 2) + 1), min(rng.randint(0, 4), max(total, 2))))
+    sc["warmup_iters"] = rng.choice([0, 1, 2, 4, 8, 16])
+    if not dyadic:
+        sc.update(kind="cosine", max_iters=max(total, 1), wf=Fr(1, 1000), gamma=Fr(1, 10), base=Fr(3, 1000))
+    return sc
+
+
+def resume_points(ctx: Ctx):
+    """(schedule, length T, resume point e): every e of every T in 1..60 in the thorough tier, a sample otherwise;
+    always including the warm-up boundary and every milestone as resume point"""
+    rng = ctx.rng
+    for total in (range(1, 61) if ctx.thorough else sorted(rng.sample(range(1, 61), 5))):
+        for dyadic in (True, False):
+            sc = gen_sched(rng, total, dyadic)
+            special = {0, total, sc["warmup_iters"], max(sc["warmup_iters"] - 1, 0)} | set(sc["milestones"]) | \
+                {m - 1 for m in sc["milestones"]}
+            pts = range(total + 1) if ctx.thorough else sorted({e for e in special if 0 <= e <= total} | {rng.randint(0, total)})
+            for e in pts:
+                yield sc, total, e
+
+
+def custom_correspondence(ctx: Ctx):
+    """WarmupCosineLR: resumed real scheduler = uninterrupted real scheduler bit for bit, and = the model's closed form
+    (cos values handed over as exact rationals) up to float rounding (1e-12 relative)"""
+    import math
+
+    import core
+
+    cases = [(sc, t, e) for sc, t, e in resume_points(ctx) if sc["kind"] == "cosine"]
+    lines, reals = [], []
+    dis = []
+    for sc, total, e in cases:
+        got = _real_resumed_lrs(sc, total, e)
+        ref = _real_resumed_lrs(sc, total, 0)
+        if got != ref:
+            dis.append({"line": f"cosine resume at {e} of {total}", "impl": str(got), "model": str(ref), "key": "cosine-resume"})
+        m = {"constant": 0, "linear": 1}.get(sc["method"], 2)
+        cs = toy.fr_pairs([math.cos(math.pi * x / sc["max_iters"]) for x in range(total)])
+        lines.append("lrcos " + ints([m, sc["warmup_iters"], 0, total, sc["max_iters"]]) + " | "
+                     + ints(toy.fr_pairs([sc["base"], sc["wf"]])) + " | " + ints(cs))
+        reals.append(got)
+    # the driver was built by the main correspondence stream a moment ago: run it without taking the build lock again
+    main = core.BUILD / f"Main_{PROP}.lean"
+    if main.exists() and lines:
+        r = subprocess.run(["lake", "env", "lean", "--run", str(main)], cwd=core.LEAN, input="\n".join(lines) + "\n",
+                           capture_output=True, text=True, timeout=600)
+        answers = r.stdout.rstrip("\n").split("\n") if r.returncode == 0 else None
+    else:
+        answers = None
+    if answers is None or len(answers) != len(lines):
+        answers = core.run_driver(PROP, lines)
+    for (sc, total, e), ln, real, ans in zip(cases, lines, reals, answers):
+        ctx.count(("lrcos", ln, e), total >= 2, bucket="lrcos/resume")
+        ctx.traces += 1
+        nums = [int(x) for x in ans[2:].split()] if ans.startswith("ok") else []
+        vals = [Fr(nums[i], nums[i + 1]) for i in range(0, len(nums), 2)]
+        if len(vals) != len(real) or any(abs(float(v) - r) > 1e-12 * max(abs(r), 1e-30) for v, r in zip(vals, real)):
+            dis.append({"line": ln[:300], "impl": str(real)[:300], "model": ans[:300], "key": "lrcos"})
+    return dis
 
 
 def _real_lr_sequence(sc, hi) -> str:
@@ -588,15 +707,19 @@ def _roundtrip_case(rng, opt_kind, sched_kind):
     from direct.checkpointer import Checkpointer
     from torch.cuda.amp import GradScaler
 
-    def build(seed):
+    dp_save, dp_load = rng.random() < 0.5, rng.random() < 0.5
+
+    def build(seed, dp=False):
         torch.manual_seed(seed)
         m = torch.nn.Sequential(torch.nn.Linear(3, 4), torch.nn.Linear(4, 2))
         o = torch.optim.Adam(m.parameters(), lr=0.3) if opt_kind == "adam" else torch.optim.SGD(m.parameters(), lr=0.3, momentum=0.9)
         sc = {"kind": sched_kind, "milestones": [2, 5], "gamma": 0.1, "wf": 0.001, "warmup_iters": 3, "method": "linear",
               "max_iters": 20}
-        return m, o, toy.make_scheduler(o, sc), GradScaler(enabled=False)
+        sm = torch.nn.Linear(2, 2)          # an additional model, as in `self.models` (sensitivity_model)
+        wrapped = torch.nn.DataParallel(m) if dp else m
+        return m, o, toy.make_scheduler(o, sc), _fake_scaler(seed % 1000), sm, wrapped
 
-    m, o, s, g = build(rng.randrange(10 ** 6))
+    m, o, s, g, sm, wm = build(rng.randrange(10 ** 6), dp_save)
     steps = rng.randint(1, 8)
     for _ in range(steps):
         o.zero_grad()
@@ -604,9 +727,11 @@ def _roundtrip_case(rng, opt_kind, sched_kind):
         o.step()
         s.step()
     with toy.scratch_dir() as d:
-        Checkpointer(pathlib.Path(d), model=m, optimizer=o, lr_scheduler=s, scaler=g, __author__="a").save(steps - 1)
-        m2, o2, s2, g2 = build(rng.randrange(10 ** 6))
-        r = Checkpointer(pathlib.Path(d), model=m2, optimizer=o2, lr_scheduler=s2, scaler=g2, __author__="a").load("latest")
+        Checkpointer(pathlib.Path(d), model=wm, optimizer=o, lr_scheduler=s, scaler=g, sensitivity_model=sm,
+                     __author__="a").save(steps - 1)
+        m2, o2, s2, g2, sm2, wm2 = build(rng.randrange(10 ** 6), dp_load)
+        r = Checkpointer(pathlib.Path(d), model=wm2, optimizer=o2, lr_scheduler=s2, scaler=g2, sensitivity_model=sm2,
+                         __author__="a").load("latest")
     s1d = {k: v for k, v in s.state_dict().items()}
     s2d = {k: v for k, v in s2.state_dict().items()}
     bad = []
@@ -620,7 +745,98 @@ def _roundtrip_case(rng, opt_kind, sched_kind):
         bad.append("lr_scheduler")
     if not _state_equal(g.state_dict(), g2.state_dict()):
         bad.append("scaler")
+    if not _state_equal(sm.state_dict(), sm2.state_dict()):
+        bad.append("additional model")
     return bad
+
+
+
+# --------------------------------------------------------------------------------------------------
+# what a checkpoint contains and what load restores (key universe of Model/Ckpt.lean : Bundle)
+KEYNAMES = {0: "model", 1: "sensitivity_model", 2: "extra_model", 3: "optimizer", 4: "lr_scheduler", 5: "scaler",
+            6: "__author__", 7: "plain"}
+
+
+def _fake_scaler(sid):
+    from torch.cuda.amp import GradScaler
+
+    class FakeScaler(GradScaler):     # a HasStateDict with a non-trivial state (a real enabled GradScaler needs CUDA)
+        def __init__(self, sid):
+            super().__init__(enabled=False)
+            self.sid = sid
+
+        def state_dict(self):
+            return {"sid": self.sid}
+
+        def load_state_dict(self, st):
+            self.sid = st["sid"]
+
+    return FakeScaler(sid)
+
+
+def make_obj(key, sid):
+    from direct.data.lr_scheduler import WarmupMultiStepLR
+
+    if key in (0, 1, 2):
+        m = torch.nn.Linear(1, 1, bias=False)
+        with torch.no_grad():
+            m.weight.fill_(float(sid))
+        return m
+    if key == 3:
+        return torch.optim.SGD([torch.nn.Parameter(torch.zeros(1))], lr=float(sid))
+    if key == 4:
+        sch = WarmupMultiStepLR(torch.optim.SGD([torch.nn.Parameter(torch.zeros(1))], lr=1.0), milestones=[], warmup_iterations=0)
+        sch.last_epoch = sid
+        return sch
+    if key == 5:
+        return _fake_scaler(sid)
+    return str(sid) if key == 6 else float(sid)
+
+
+def read_id(key, obj) -> int:
+    if key in (0, 1, 2):
+        return int(round(float(obj.weight.detach().flatten()[0])))
+    if key == 3:
+        return int(round(obj.param_groups[0]["lr"]))
+    if key == 4:
+        return int(obj.last_epoch)
+    if key == 5:
+        return int(obj.sid)
+    return int(float(obj))
+
+
+def real_bundle(saver, loader, mode, keys) -> str:
+    """REAL Checkpointer.save then load / load_from_path(only_models) / load(checkpointable_objects=…)"""
+    from direct.checkpointer import Checkpointer
+
+    with toy.scratch_dir() as d:
+        so = {KEYNAMES[k]: make_obj(k, v) for k, v in saver}
+        Checkpointer(pathlib.Path(d), **so).save(3)
+        lo = {KEYNAMES[k]: make_obj(k, v) for k, v in loader}
+        ck = Checkpointer(pathlib.Path(d), **lo)
+        try:
+            if mode == 0:
+                left = ck.load(3)
+            elif mode == 1:
+                left = ck.load_from_path(pathlib.Path(d) / "model_3.pt", only_models=True)
+            else:
+                left = ck.load(3, checkpointable_objects={KEYNAMES[k]: object() for k in keys})
+        except KeyError:
+            return "err KeyError"
+    names = {v: k for k, v in KEYNAMES.items()}
+    return "ok " + ints([read_id(k, lo[KEYNAMES[k]]) for k, _ in loader]) + " | " + ints([names[k] for k in left if k in names])
+
+
+def gen_bundle(rng):
+    def objs():
+        ks = [0] + sorted(rng.sample(range(1, 8), rng.randint(0, 5)))
+        return [(k, rng.randint(1, 9)) for k in ks]
+    saver, loader = objs(), objs()
+    if rng.random() < 0.4:
+        loader = [(k, rng.randint(1, 9)) for k, _ in saver]
+    mode = rng.choice([0, 0, 1, 2])
+    keys = sorted(rng.sample(range(0 if rng.random() < 0.15 else 1, 8), rng.randint(0, 4))) if mode == 2 else []
+    return saver, loader, mode, keys
 
 
 def oracle(ctx: Ctx, deep: bool = False):
@@ -632,14 +848,20 @@ def oracle(ctx: Ctx, deep: bool = False):
     # (a) crash safety on the real operation order: every materialised crash state loads the previous or the new checkpoint
     verdicts = [v for v in st["verdicts"] if not v["pinned"]]
     if not verdicts:
-        for name, prev, new in _scenarios(st):
+        for name, prev, new, stale in _scenarios(st):
             for n, m in crash_points(new[0], True):
-                _crash_case(ctx, st, name, prev, new, False, n, m)["impl"]()
+                _crash_case(ctx, st, name, prev, new, False, n, m, stale)["impl"]()
         verdicts = [v for v in st["verdicts"] if not v["pinned"]]
     for v in verdicts:
         it, sid = v["new"]
         allowed = {f"ok 1 {it} {sid}"}
         allowed.add(f"ok 1 {v['prev_of'][0]} {v['prev_of'][1]}" if v["prev_of"] else "ok 0")
+        if v["before"] not in allowed and v["before"].startswith("ok"):
+            allowed.add(v["before"])     # stale-tmp scenarios: the crashed earlier save may already have put its file in place
+        if v["before"].startswith("err"):
+            yield Violation("crash-load-fails", f"directory left by an earlier crashed save ({v['scenario']}) does not load: "
+                            f"`{v['before']}`", {"op": "crash", "scenario": v["scenario"], "n": -1, "m": None,
+                                                 "observed": v["before"], "allowed": sorted(allowed)})
         ctx.count(("crash", v["scenario"], v["n"], v["m"]), 0 < v["n"] < v["nops"] or v["m"] is not None,
                   bucket="oracle/crash/" + v["scenario"])
         if v["verdict"] not in allowed:
@@ -650,10 +872,12 @@ def oracle(ctx: Ctx, deep: bool = False):
                             {"op": "crash", "scenario": v["scenario"], "n": v["n"], "m": v["m"], "observed": v["verdict"],
                              "allowed": sorted(allowed)})
     # 'latest' = most recent completed save
-    for i, (name, prev, new) in enumerate(_scenarios(st)):
+    for i, (name, prev, new, stale) in enumerate(_scenarios(st)):
         with toy.scratch_dir() as d:
             for pops, ppay, _, _ in prev:
                 apply_ops(d, pops, ppay, 10 ** 6, None)
+            if stale is not None:
+                apply_ops(d, stale[0][0], stale[0][1], stale[1], stale[2])
             apply_ops(d, new[0], new[1], 10 ** 6, None)
             got = real_load_verdict(d)
         ctx.count(("latest", name), True, bucket="oracle/latest")
@@ -703,9 +927,9 @@ def replay(rep: dict) -> bool:
         ctx = Ctx(PROP, "quick", 0)
         prepare(ctx)
         st = ctx.__dict__["c15"]
-        for name, prev, new in _scenarios(st):
+        for name, prev, new, stale in _scenarios(st):
             if name == rep["scenario"]:
-                v = _crash_case(ctx, st, name, prev, new, False, rep["n"], rep["m"])["impl"]()
+                v = _crash_case(ctx, st, name, prev, new, False, max(rep["n"], 0), rep["m"], stale)["impl"]()
                 return v not in rep["allowed"]
     if rep.get("op") == "roundtrip":
         import random
